@@ -543,8 +543,8 @@ def weighted(rng, table):
     return rng.choices([k for k, _ in table], weights=[w for _, w in table])[0]
 
 
-def gen_digest_case(rng, cfg, world):
-    kind = weighted(rng, DIGEST_KINDS)
+def gen_digest_case(rng, cfg, world, kind=None):
+    kind = kind or weighted(rng, DIGEST_KINDS)
     server_codec = CODEC[cfg['charset'].lower()]
     valid_users = [(u, p) for u, p in cfg['users'] if p != '' or cfg['store'] in ('ha1', 'htdigest')]
     user, pw = rng.choice(valid_users) if valid_users else ('ghost', 'pw')
@@ -1285,6 +1285,78 @@ def gen_batch(rng, world):
         c = gen_digest_case(rng, cfg, world) if tool == 'digest' else gen_basic_case(rng, cfg, world)
         if c is not None:
             out.append(c)
+    return out
+
+
+def gen_store_change(rng, world):
+    """The credential store changes between two requests (an htdigest file re-written by the administrator: one
+    password changed, one user removed, one added; the new file's mtime equal to / older than / newer than the old
+    one's - `cp -p`, `rsync -t`, a restored backup).  "Verify against the configured store" means the store as it is
+    when the request arrives: credentials that were right before the change and are wrong now must not be admitted,
+    the new ones must.  Every case is self-contained (`pre_store`: old configuration, one well-formed request that
+    makes the server read the old file, how the new file is dated), so it replays alone."""
+    import copy
+    for _ in range(50):
+        a = gen_cfg(rng, 'digest')
+        if a.get('store') == 'htdigest' and a['users'] and not refused_config(a):
+            break
+    else:
+        return []
+    a.pop('debug', None)
+    b = copy.deepcopy(a)
+    u0, p0 = b['users'][0]
+    b['users'][0] = [u0, p0 + '-changed']
+    removed = b['users'].pop() if len(b['users']) > 1 else None
+    b['users'].append(['newcomer', 'fresh pw'])
+    lines = []
+    for u, r, h in b['htlines']:
+        if r == b['realm'] and u == u0:
+            h = ha1_of(u0, b['realm'], p0 + '-changed')
+        if removed is not None and r == b['realm'] and u == removed[0]:
+            continue
+        lines.append([u, r, h])
+    lines.append(['newcomer', b['realm'], ha1_of('newcomer', b['realm'], 'fresh pw')])
+    b['htlines'] = lines
+    b['store_rev'] = 2          # (distinguishes the two configurations when nothing else does)
+    warm = None
+    for _ in range(40):
+        w = gen_digest_case(rng, a, world, kind='ok')
+        if w is not None and w['conforming'] and w['wellformed'] is True and w.get('sent_qop') != 'auth-int':
+            warm = {k: w[k] for k in ('header', 'method', 'body', 'now')}
+            break
+    if warm is None:
+        return []
+    out = []
+    for mode in ('same_mtime', 'older_mtime', 'newer_mtime'):
+        pre = {'cfg': a, 'warm': warm, 'mode': mode}
+        n = 0
+        for _ in range(60):
+            if n >= 8:
+                break
+            # credentials that are right under the NEW store ...
+            c = gen_digest_case(rng, b, world, kind=rng.choice(['ok', 'ok', 'wrong_password', 'unknown_user']))
+            if c is None:
+                continue
+            c['pre_store'] = pre
+            c['kind'] = 'store_changed:%s:%s' % (mode, c['kind'])
+            out.append(c)
+            n += 1
+        n = 0
+        for _ in range(60):
+            if n >= 6:
+                break
+            # ... and credentials that were right under the OLD store, judged against the new one
+            c = gen_digest_case(rng, a, world, kind='ok')
+            if c is None:
+                continue
+            c['cfg'] = b
+            c['pre_store'] = pre
+            c['kind'] = 'store_changed:%s:old_credentials' % mode
+            used = [x.get('username') for x in (c['cands'] or [])]
+            if any(secret(a, x) is not None and secret(a, x) != secret(b, x) for x in used):
+                c['conforming'] = False      # (no longer correct credentials: admission is not demanded, refusal is)
+            out.append(c)
+            n += 1
     return out
 
 
